@@ -674,7 +674,9 @@ void ObjectFile::store(bool isCommit /* = false */)
 		return;
 	}
 
-	File objectFile(path, umask, true, true, true, false);
+	// A commit never creates the file: if it is gone, another process has
+	// destroyed the object and writing it back would resurrect it
+	File objectFile(path, umask, true, true, !isCommit, false);
 
 	if (!objectFile.isValid())
 	{
